@@ -1,7 +1,7 @@
 """C18 — spinlock: mutual exclusion, FIFO ticket order, trylock never steals (structural part)."""
 from core import strip, is_field, order_ge, key_str
 from facts import AnalysisBroken
-from rules import (check_init, nodeset, ev, Unevaluable, atom_from, reach, atomic_ops, ret_const)
+from rules import (field_load, check_init, nodeset, ev, Unevaluable, atom_from, reach, atomic_ops, ret_const)
 from symword import Machine
 import stale
 
@@ -93,8 +93,7 @@ def run(ctx):
             bad = "the CAS acts on `%s`, not on the whole word" % key_str(tk)
         if not order_ge(c.order or "relaxed", "acquire"):
             bad = bad or "CAS success order %s" % c.order
-        isblob = lambda n: (n.k == "ImplicitCastExpr" and n.ck == "LValueToRValue" and strip(n).k == "MemberExpr" and strip(n).field == "blob"
-                            and Machine(f, P).locate(n.kids[0]) is None)
+        isblob = lambda n: field_load("blob")(n) and n.k == "ImplicitCastExpr" and Machine(f, P).locate(n.kids[0]) is None
         for t, u in ((0, 0), (3, 3), (3, 5), (7, 9), (4294967295, 4294967295), (4294967294, 4294967295),
                      (4294967295, 0), (4294967294, 1), (5, 3)):
             S = (u << 32) | t
